@@ -10,6 +10,7 @@ one spelling also sees the other:
   N4  `x: T = e` on a plain local inside a function        ->  `x = e`        (the annotation of a local is never evaluated)
   N5  `if c: ... <jump>` with an else arm                   ->  the else arm follows the if (no else after return/raise/continue/break)
   N8  a new local bound once to an access path and only read afterwards (`entry = table[key]`) -> its reads are the path again
+  N11 a loop over a small literal table of constants is unrolled;  N12 getattr(o, 'name') / setattr(o, 'name', v) with a literal name are attribute access
   N10 `x = []` + a loop whose whole body appends to x (optionally under ifs / nested single-statement loops) -> the list / set / dict comprehension
   N9  a new local bound once and read once, in the next statement, before any other call of it -> the expression moves back to the read
   N6  `f(a, y=b)` where y is the next positional parameter of the project function f  ->  `f(a, b)`   (done in Project, needs name resolution)
@@ -23,7 +24,7 @@ from __future__ import annotations
 
 import ast
 import os
-from typing import Dict, List
+from typing import Dict, List, Optional
 
 _SCOPES = (ast.FunctionDef, ast.AsyncFunctionDef, ast.Lambda, ast.ClassDef, ast.ListComp, ast.SetComp, ast.DictComp, ast.GeneratorExp)
 
@@ -120,6 +121,8 @@ def _is_path(e) -> bool:
         return _is_path(e.value)
     if isinstance(e, ast.Subscript):
         return _is_path(e.value) and _is_path(e.slice)
+    if isinstance(e, ast.Tuple):
+        return all(_is_path(x) for x in e.elts)
     return False
 
 
@@ -394,8 +397,95 @@ def _n9(fnode, known_locals: set, stats) -> None:
     fnode.body = do_block(fnode.body)
 
 
+def _const_rows(e, consts) -> Optional[list]:
+    """elements of a small literal tuple / list of constants (or of tuples of constants), directly or through a module-level name"""
+    if isinstance(e, ast.Name) and e.id in consts:
+        e = consts[e.id]
+    if not isinstance(e, (ast.Tuple, ast.List)) or not (1 <= len(e.elts) <= 8):
+        return None
+    rows = []
+    for x in e.elts:
+        if isinstance(x, ast.Constant):
+            rows.append(x)
+        elif isinstance(x, (ast.Tuple, ast.List)) and x.elts and all(isinstance(y, ast.Constant) for y in x.elts):
+            rows.append(x)
+        else:
+            return None
+    return rows
+
+
+def _n11(body: List[ast.stmt], consts, stats) -> List[ast.stmt]:
+    """N11: a loop over a small literal table is unrolled (`for k in ('a', 'b'): f(k)` -> `f('a'); f('b')`), when the body has no
+    break / continue of that loop, the loop has no else, and the loop variable is not read after the loop."""
+    out: List[ast.stmt] = []
+    for i, st in enumerate(body):
+        done = False
+        if isinstance(st, ast.For) and not st.orelse:
+            rows = _const_rows(st.iter, consts)
+            tg = st.target
+            names = [tg.id] if isinstance(tg, ast.Name) else ([e.id for e in tg.elts] if isinstance(tg, ast.Tuple) and all(isinstance(e, ast.Name) for e in tg.elts) else None)
+            if rows is not None and names:
+                jumps = False
+                stack = list(st.body)
+                while stack:
+                    x = stack.pop()
+                    if isinstance(x, (ast.Break, ast.Continue)):
+                        jumps = True
+                    if isinstance(x, (ast.For, ast.While, ast.FunctionDef, ast.AsyncFunctionDef, ast.Lambda, ast.ClassDef)):
+                        continue
+                    stack.extend(ast.iter_child_nodes(x))
+                stored = any(isinstance(n, ast.Name) and n.id in names and isinstance(n.ctx, ast.Store) for b in st.body for n in ast.walk(b))
+                later = any(isinstance(n, ast.Name) and n.id in names for s2 in body[i + 1:] for n in ast.walk(s2))
+                shapes_ok = all((isinstance(r, ast.Constant) and len(names) == 1) or (not isinstance(r, ast.Constant) and len(r.elts) == len(names)) for r in rows)
+                if not jumps and not stored and not later and shapes_ok:
+                    for r in rows:
+                        vals = {names[0]: r} if isinstance(r, ast.Constant) else dict(zip(names, r.elts))
+
+                        class S(ast.NodeTransformer):
+                            def visit_Name(self, node):
+                                if node.id in vals and isinstance(node.ctx, ast.Load):
+                                    return ast.copy_location(ast.Constant(value=vals[node.id].value), node)
+                                return node
+                        for b in st.body:
+                            out.append(S().visit(_clone(b)))
+                    stats['N11'] = stats.get('N11', 0) + 1
+                    done = True
+        if not done:
+            out.append(st)
+    return out
+
+
+class _AttrLiterals(ast.NodeTransformer):
+    """N12: getattr(o, 'name') -> o.name ; a statement setattr(o, 'name', v) -> o.name = v   (literal identifier names only)"""
+
+    def __init__(self, stats):
+        self.stats = stats
+
+    def visit_Call(self, node):
+        self.generic_visit(node)
+        if isinstance(node.func, ast.Name) and node.func.id == 'getattr' and len(node.args) == 2 and not node.keywords \
+                and isinstance(node.args[1], ast.Constant) and isinstance(node.args[1].value, str) and node.args[1].value.isidentifier():
+            self.stats['N12'] = self.stats.get('N12', 0) + 1
+            return ast.copy_location(ast.Attribute(value=node.args[0], attr=node.args[1].value, ctx=ast.Load()), node)
+        return node
+
+    def visit_Expr(self, node):
+        self.generic_visit(node)
+        c = node.value
+        if isinstance(c, ast.Call) and isinstance(c.func, ast.Name) and c.func.id == 'setattr' and len(c.args) == 3 and not c.keywords \
+                and isinstance(c.args[1], ast.Constant) and isinstance(c.args[1].value, str) and c.args[1].value.isidentifier():
+            self.stats['N12'] = self.stats.get('N12', 0) + 1
+            new = ast.Assign(targets=[ast.Attribute(value=c.args[0], attr=c.args[1].value, ctx=ast.Store())], value=c.args[2])
+            return ast.copy_location(new, node)
+        return node
+
+
 def normalise(tree: ast.AST, ref: dict = None) -> Dict[str, int]:
     stats: Dict[str, int] = {}
+    consts = {}
+    for n in getattr(tree, 'body', []):
+        if isinstance(n, ast.Assign) and len(n.targets) == 1 and isinstance(n.targets[0], ast.Name) and isinstance(n.value, (ast.Tuple, ast.List)):
+            consts[n.targets[0].id] = n.value
     if ref:
         def rec(body, prefix):
             for n in body:
@@ -418,6 +508,8 @@ def normalise(tree: ast.AST, ref: dict = None) -> Dict[str, int]:
             stmt(st, nested)
         if in_func:
             body = [_n4(x, stats) for x in body]
+            body = _n11(body, consts, stats)
+            body = [_AttrLiterals(stats).visit(x) if not isinstance(x, (ast.FunctionDef, ast.AsyncFunctionDef, ast.ClassDef)) else x for x in body]
             body = _n5(body, stats)
             body = _n10(body, stats)
         body = [_n2(x, stats) for x in body]
